@@ -143,7 +143,7 @@ func (s *RSchema) doCompile() error {
 		return s.newJSchemaError(errs.ErrRegexUnexpectedStart, 0, content.Byte(0))
 	}
 
-	var escaped bool
+	var escaped, found bool
 
 loop:
 	for i, c := range content.SubLow(1).Data() {
@@ -154,6 +154,7 @@ loop:
 		case '/':
 			if !escaped {
 				s.pattern = content.Sub(1, i+1).String()
+				found = true
 				break loop
 			}
 			escaped = false
@@ -163,7 +164,7 @@ loop:
 		}
 	}
 
-	if s.pattern == "" {
+	if !found {
 		idx := uint(content.Len() - 1)
 		return s.newJSchemaError(errs.ErrRegexUnexpectedEnd, idx, content.Byte(idx))
 	}
